@@ -225,4 +225,5 @@ def run(tier, seed, procs):
                            [(MOD, runs, steps, seed * 1000 + 500 + i,
                              {'faults': 'none', 'degenerate': False,
                               'kinds': KINDS + ['roStoryDelete', 'roItemDelete']}) for i in range(hs)], procs)
+    cols += drive.pool_map(history.shard_returning, [MOD], 1)
     return drive.merge_all(PROP, cols)
